@@ -4,6 +4,7 @@ import H3.Props.C16
 import H3.Props.C02
 import H3.Props.C04
 import H3.Lemmas.C19
+import H3.Lemmas.C19IO
 import H3.Lemmas.VarintSpec
 /-! # C19 — WebTransport streams stay attached to their session, bytes intact -/
 namespace H3.Props.C19
@@ -268,5 +269,301 @@ example : ∃ s r, resolve 8 {} [.chunk [0x40], .pend, .chunk [0x54, 0x80], .pen
     (by intro b hb; simp at hb; rcases hb with rfl | rfl | rfl | rfl | rfl <;> simp [WF]) (by decide)
 
 end uni
+
+/-! ## Reading with caller-sized buffers (`AsyncRead::poll_read`, futures and tokio) -/
+
+section limited
+open H3.FS
+open H3.Lemmas.C04 (bytesOf)
+
+/-- **The buffer-limited reader, for every sequence of positive buffer sizes.**  A
+    `BufRecvStream` holds the chunks `s.buf` (none empty) and the transport still answers `sc` (any
+    cutting, `Pending` anywhere, FIN / RESET anywhere or not at all).  An application reads through
+    `AsyncRead::poll_read` with buffers of sizes `sizes` — ANY list of positive numbers, one per
+    completed call (1 byte, smaller than a chunk, larger than everything) — until a call reports
+    0 bytes, an error, or the sizes are used up.  Then (`ReadOK`): what the calls reported ++
+    what is still buffered ++ what the transport has still to deliver before the end = what was
+    there at the start (nothing lost, nothing twice, order kept, wherever the loop stops); every
+    completed call reports at least one byte and at most its buffer's size; if the loop ended
+    for any reason other than running out of buffers, it ended the way the stream ends (`Ok(0)`
+    ⇔ FIN is the next end event, the RESET's code, `Pending` if the stream is still open) and only
+    after every byte delivered before that end had been handed out.  With more buffers than
+    bytes the loop does end that way. -/
+theorem C19_limited_reader (sizes : List Nat) (hpos : ∀ n ∈ sizes, 0 < n) (s : Rd)
+    (hbuf : ∀ c ∈ s.buf, c ≠ []) (sc : List Ev) (hsc : ScriptOK sc) :
+    ReadOK sizes s sc (readLim sizes s sc) ∧
+    ((s.buf.flatten ++ bytesOf sc).length < sizes.length →
+      (readLim sizes s sc).pieces.flatten = s.buf.flatten ++ bytesOf sc ∧
+      (readLim sizes s sc).fin = endOf sc) :=
+  ⟨readLim_ok sizes hpos s hbuf sc hsc, (readLim_ok sizes hpos s hbuf sc hsc).complete⟩
+
+/-! non-vacuity: `aa bb cc` buffered, `dd ee` still to come behind a `Pending`, then FIN; buffers of
+    2 bytes: four calls report `aa bb | cc | dd ee`, the fifth `Ok(0)`; buffers 1, 4, 1 run out before
+    the end: `aa | bb cc | dd`, `ee` still buffered; a RESET instead of FIN is reported after `dd ee` -/
+example : readLim [2, 2, 2, 2, 2] { buf := [[0xaa, 0xbb, 0xcc]] } [.pend, .chunk [0xdd, 0xee], .fin] =
+    { pieces := [[0xaa, 0xbb], [0xcc], [0xdd, 0xee]], fin := .eof, s := { buf := [], eos := true },
+      script := [.fin], left := [2] } := by decide
+example : readLim [1, 4, 1] { buf := [[0xaa, 0xbb, 0xcc]] } [.pend, .chunk [0xdd, 0xee], .fin] =
+    { pieces := [[0xaa], [0xbb, 0xcc], [0xdd]], fin := .more, s := { buf := [[0xee]] },
+      script := [.fin], left := [] } := by decide
+example : (readLim [5, 5, 5] { buf := [] } [.chunk [0xdd, 0xee], .reset 7]).fin = .err 7 ∧
+    (readLim [5, 5, 5] { buf := [] } [.chunk [0xdd, 0xee], .reset 7]).pieces = [[0xdd, 0xee]] := by decide
+example : (readLim [2, 2, 2, 2, 2, 2] { buf := [[0xaa, 0xbb, 0xcc]] } [.pend, .chunk [0xdd, 0xee], .fin]).pieces.flatten =
+    [0xaa, 0xbb, 0xcc] ++ bytesOf [.pend, .chunk [0xdd, 0xee], .fin] ∧
+    (readLim [2, 2, 2, 2, 2, 2] { buf := [[0xaa, 0xbb, 0xcc]] } [.pend, .chunk [0xdd, 0xee], .fin]).fin =
+      endOf [.pend, .chunk [0xdd, 0xee], .fin] :=
+  (C19_limited_reader [2, 2, 2, 2, 2, 2] (by decide) { buf := [[0xaa, 0xbb, 0xcc]] } (by decide)
+    [.pend, .chunk [0xdd, 0xee], .fin]
+    (by intro b hb; simp at hb; subst hb; simp)).2 (by decide)
+
+/-- **Bidirectional streams, buffer-limited reader.**  As `C19_bidi_reader_obtains_payload`, but the
+    application reads through `AsyncRead::poll_read` with ANY sequence of positive buffer sizes:
+    for every session id, payload, cutting of `bidiHeader sid ++ payload` (nothing delivered behind
+    FIN / RESET) and configuration reached when `poll_next` has answered the WebTransport frame,
+    the bytes the calls report are, concatenated, a prefix of the payload — each call at least one
+    byte and at most its buffer — and with more buffers than payload bytes they are exactly the
+    payload, and the loop ends as the stream does (`Ok(0)` only behind the last byte). -/
+theorem C19_bidi_limited_reader_obtains_payload (sid : Nat) (hsid : sid < 2^62) (payload : List Nat)
+    (hlen : payload.length < 2^64) (sc0 : List Ev) (hsc : ScriptOK sc0)
+    (hbytes : evBytes sc0 = bidiHeader sid ++ payload) (hend : EndLast sc0)
+    {x : Nat} {s : FS.St} {script : List Ev}
+    (h : Reach frameDec sc0 [FS.Tok.frame (.webTransport x)] s script)
+    (sizes : List Nat) (hpos : ∀ n ∈ sizes, 0 < n) :
+    (∃ rest, (readLim sizes (Rd.ofFS s) script).pieces.flatten ++ rest = payload) ∧
+    (∀ p ∈ (readLim sizes (Rd.ofFS s) script).pieces, p ≠ []) ∧
+    Fits (readLim sizes (Rd.ofFS s) script).pieces sizes ∧
+    (payload.length < sizes.length →
+      (readLim sizes (Rd.ofFS s) script).pieces.flatten = payload ∧
+      (readLim sizes (Rd.ofFS s) script).fin = endOf script) := by
+  obtain ⟨taken, hsc0, hI⟩ := H3.Props.C02.C02_chunking_independent frameDec frameDec_laws sc0 hsc h
+  have hsc' : ScriptOK script := by rw [hsc0] at hsc; exact scriptOK_suffix hsc
+  have hend' : EndLast script := by rw [hsc0] at hend; exact endLast_suffix taken script hend
+  have hpay : (Rd.ofFS s).buf.flatten ++ bytesOf script = payload := by
+    rw [bytesOf_eq_evBytes script hend']
+    exact (C19_payload_after_header sid hsid payload hlen sc0 hsc hbytes h).2.2
+  have hok := readLim_ok sizes hpos (Rd.ofFS s) hI.ne script hsc'
+  refine ⟨?_, hok.nonempty, hok.fits, fun hl => ?_⟩
+  · obtain ⟨rest, hr⟩ := hok.prefix
+    exact ⟨rest, by rw [hr, hpay]⟩
+  · have := hok.complete (by rw [hpay]; exact hl)
+    rw [hpay] at this
+    exact this
+
+-- the cutting `cut₂` of `40 41 41 00 | aa bb cc` + FIN (cuts inside both varints and inside the payload),
+-- read with 1-byte buffers, with 2-byte buffers, and with one large buffer per call
+example : (readLim [1, 1, 1, 1] (Rd.ofFS { buf := [[0xaa]], remaining := USIZE_MAX }) [.chunk [0xbb, 0xcc], .fin]) =
+    { pieces := [[0xaa], [0xbb], [0xcc]], fin := .eof, s := { buf := [], eos := true }, script := [.fin],
+      left := [] } := by decide
+example : (readLim [2, 2, 2, 2] (Rd.ofFS { buf := [[0xaa]], remaining := USIZE_MAX }) [.chunk [0xbb, 0xcc], .fin]).pieces =
+    [[0xaa], [0xbb, 0xcc]] := by decide
+example : (readLim [64, 64, 64, 64] (Rd.ofFS { buf := [[0xaa]], remaining := USIZE_MAX })
+      [.chunk [0xbb, 0xcc], .fin]).pieces.flatten = [0xaa, 0xbb, 0xcc] ∧
+    (readLim [64, 64, 64, 64] (Rd.ofFS { buf := [[0xaa]], remaining := USIZE_MAX })
+      [.chunk [0xbb, 0xcc], .fin]).fin = endOf [.chunk [0xbb, 0xcc], .fin] :=
+  (C19_bidi_limited_reader_obtains_payload 256 (by decide) [0xaa, 0xbb, 0xcc] (by decide) cut₂
+    (by intro b hb; simp [cut₂] at hb; rcases hb with rfl | rfl | rfl | rfl <;> simp) (by decide)
+    (by simp [cut₂, EndLast, evBytes]) reach_cut₂ [64, 64, 64, 64] (by decide)).2.2.2 (by decide)
+
+end limited
+
+section limitedUni
+open H3.UniAccept H3.Lemmas.C04
+open H3.FS (ScriptOK)
+
+/-- **Unidirectional streams, buffer-limited reader.**  As `C19_uni_reader_obtains_payload`, with
+    the application reading the resolved stream through `AsyncRead::poll_read` with ANY sequence of
+    positive buffer sizes. -/
+theorem C19_uni_limited_reader_obtains_payload (sid : Nat) (hsid : sid < 2^62) (payload : List Nat)
+    (sc : List UniAccept.Ev) (hwf : ScriptWF sc) (hsc : ScriptOK sc)
+    (hbytes : bytesOf sc = uniHeader sid ++ payload)
+    (sizes : List Nat) (hpos : ∀ n ∈ sizes, 0 < n) :
+    ∃ s r, resolve (sc.length + 1) {} sc = .resolved s r ∧ s.id = some sid ∧
+      (∃ rest, (readLim sizes (Rd.ofUni s) (uniScript s r)).pieces.flatten ++ rest = payload) ∧
+      (∀ p ∈ (readLim sizes (Rd.ofUni s) (uniScript s r)).pieces, p ≠ []) ∧
+      Fits (readLim sizes (Rd.ofUni s) (uniScript s r)).pieces sizes ∧
+      (payload.length < sizes.length →
+        (readLim sizes (Rd.ofUni s) (uniScript s r)).pieces.flatten = payload ∧
+        (readLim sizes (Rd.ofUni s) (uniScript s r)).fin = endOf (uniScript s r)) := by
+  obtain ⟨s, r, h1, _, h3, h4⟩ := C19_uni_payload_after_header sid hsid payload sc hwf hbytes
+  refine ⟨s, r, h1, h3, ?_⟩
+  obtain ⟨pre, hpre⟩ := resolve_suffix _ _ _ _ _ h1
+  have hr : ScriptOK r := by rw [hpre] at hsc; exact H3.FS.scriptOK_suffix hsc
+  have hsc' : ScriptOK (uniScript s r) := by
+    unfold uniScript
+    split
+    · exact hr
+    · intro b hb; exact hr b (by simpa using hb)
+    · intro b hb; exact hr b (by simpa using hb)
+  have hbuf : BufOK (Rd.ofUni s).buf := by
+    unfold Rd.ofUni
+    by_cases hb : s.buf = []
+    · simp [hb, BufOK]
+    · simp only [if_neg hb]
+      intro c hc
+      simp at hc
+      rw [hc]; exact hb
+  have hflat : (Rd.ofUni s).buf.flatten = s.buf := by
+    unfold Rd.ofUni
+    by_cases hb : s.buf = []
+    · simp [hb]
+    · simp [if_neg hb]
+  have hfut : bytesOf (uniScript s r) = future s r := by
+    unfold uniScript future
+    split
+    · rename_i he; simp [he]
+    · rename_i he; simp [he, bytesOf]
+    · rename_i c he; simp [he, bytesOf]
+  have hpay : (Rd.ofUni s).buf.flatten ++ bytesOf (uniScript s r) = payload := by
+    rw [hflat, hfut]; exact h4
+  have hok := readLim_ok sizes hpos (Rd.ofUni s) hbuf (uniScript s r) hsc'
+  refine ⟨?_, hok.nonempty, hok.fits, fun hl => ?_⟩
+  · obtain ⟨rest, hrr⟩ := hok.prefix
+    exact ⟨rest, by rw [hrr, hpay]⟩
+  · have := hok.complete (by rw [hpay]; exact hl)
+    rw [hpay] at this
+    exact this
+
+-- session 65536, payload `aa bb`, cut inside both varints; `aa` is buffered behind the header, `bb`
+-- still to come: read with 1-byte buffers
+example : readLim [1, 1, 1] (Rd.ofUni { buf := [0xaa], ty := some 0x54, id := some 65536 })
+      (uniScript { buf := [0xaa], ty := some 0x54, id := some 65536 } [.chunk [0xbb]]) =
+    { pieces := [[0xaa], [0xbb]], fin := .open_, s := { buf := [] }, script := [], left := [1] } := by decide
+example : ∃ s r, resolve 9 {} [.chunk [0x40], .pend, .chunk [0x54, 0x80], .pend, .chunk [0x01, 0x00],
+      .chunk [0x00, 0xaa], .chunk [0xbb], .fin] = .resolved s r ∧ s.id = some 65536 ∧
+      (∃ rest, (readLim [1, 1, 1] (Rd.ofUni s) (uniScript s r)).pieces.flatten ++ rest = [0xaa, 0xbb]) ∧
+      (∀ p ∈ (readLim [1, 1, 1] (Rd.ofUni s) (uniScript s r)).pieces, p ≠ []) ∧
+      Fits (readLim [1, 1, 1] (Rd.ofUni s) (uniScript s r)).pieces [1, 1, 1] ∧
+      (([0xaa, 0xbb] : List Nat).length < [1, 1, 1].length →
+        (readLim [1, 1, 1] (Rd.ofUni s) (uniScript s r)).pieces.flatten = [0xaa, 0xbb] ∧
+        (readLim [1, 1, 1] (Rd.ofUni s) (uniScript s r)).fin = endOf (uniScript s r)) :=
+  C19_uni_limited_reader_obtains_payload 65536 (by decide) [0xaa, 0xbb]
+    [.chunk [0x40], .pend, .chunk [0x54, 0x80], .pend, .chunk [0x01, 0x00], .chunk [0x00, 0xaa], .chunk [0xbb], .fin]
+    (by intro b hb; simp at hb; rcases hb with rfl | rfl | rfl | rfl | rfl <;> simp [WF])
+    (by intro b hb; simp at hb; rcases hb with rfl | rfl | rfl | rfl | rfl <;> simp) (by decide)
+    [1, 1, 1] (by decide)
+
+end limitedUni
+
+/-! ## What an opened stream puts on the wire -/
+
+section wire
+open H3.Spec.ControlRules (header)
+
+/-- **Streams the server opens, bidirectional.**  For every session id below 2^62, every acceptance
+    pattern `hs` of the transport while `open_bi` writes the header (any number of bytes at a
+    time, `Pending` anywhere) and every sequence of write calls of the application — byte slices
+    through `poll_send` / `AsyncWrite::poll_write` (futures or tokio), DATA frames through
+    `send_data` + `poll_ready`, `poll_finish` / `poll_close` / `poll_shutdown`, `reset` — each
+    under its own acceptance pattern: nothing panics; the bytes the transport has accepted are
+    always a prefix of `bidiHeader sid ++` the bytes handed to the write calls in order; once no
+    call is left waiting they are exactly that, FIN is set iff a finishing call was made, and the
+    receiving frame decoder reads the wire as the WebTransport frame of session `sid`, consuming
+    exactly the header, with exactly the handed bytes behind it; and no call is left waiting when
+    every acceptance pattern offers enough room. -/
+theorem C19_opened_bidi_wire (sid : Nat) (hsid : sid < 2^62) (hs : List Nat) (ops : List WOp)
+    (hf : FramesOK ops) :
+    (openBidi sid hs ops).panic = false ∧
+    (∃ rest, (openBidi sid hs ops).wire ++ rest = bidiHeader sid ++ handed ops) ∧
+    ((openBidi sid hs ops).stuck = false →
+      (openBidi sid hs ops).wire = bidiHeader sid ++ handed ops ∧
+      ((openBidi sid hs ops).fin = true ↔ WOp.finish ∈ ops) ∧
+      H3.Frame.decode (openBidi sid hs ops).wire = .frame (.webTransport sid) (bidiHeader sid).length ∧
+      (openBidi sid hs ops).wire.drop (bidiHeader sid).length = handed ops) ∧
+    (Accepts hs (bidiHeader sid).length → Enough ops → (openBidi sid hs ops).stuck = false) := by
+  obtain ⟨w, hw, hwf, hv⟩ := fromBidiHeader_some sid hsid
+  have h := opened_ok w hwf hs ops hf
+  simp only [hv] at h
+  unfold openBidi
+  rw [hw]
+  obtain ⟨h1, h2, h3, h4⟩ := h
+  refine ⟨h1, h2, fun hst => ?_, h4⟩
+  obtain ⟨e, hfin⟩ := h3 hst
+  refine ⟨e, hfin, ?_, ?_⟩
+  · rw [e]; exact C19_bidi_header_decodes sid hsid _
+  · rw [e]; simp
+
+/-- **Streams the server opens, unidirectional.**  The same for `open_uni`: the wire is
+    `uniHeader sid ++` the handed bytes, and the stream-header reader of the specification (RFC 9000
+    varints: stream type, then the session id) reads it as type 0x54, id `sid`, with exactly the
+    handed bytes behind the header. -/
+theorem C19_opened_uni_wire (sid : Nat) (hsid : sid < 2^62) (hs : List Nat) (ops : List WOp)
+    (hf : FramesOK ops) :
+    (openUni sid hs ops).panic = false ∧
+    (∃ rest, (openUni sid hs ops).wire ++ rest = uniHeader sid ++ handed ops) ∧
+    ((openUni sid hs ops).stuck = false →
+      (openUni sid hs ops).wire = uniHeader sid ++ handed ops ∧
+      ((openUni sid hs ops).fin = true ↔ WOp.finish ∈ ops) ∧
+      header (openUni sid hs ops).wire = .complete 0x54 (some sid) (handed ops)) ∧
+    (Accepts hs (uniHeader sid).length → Enough ops → (openUni sid hs ops).stuck = false) := by
+  obtain ⟨w, hw, hwf, hv⟩ := fromUniHeader_some sid hsid
+  have h := opened_ok w hwf hs ops hf
+  simp only [hv] at h
+  unfold openUni
+  rw [hw]
+  obtain ⟨h1, h2, h3, h4⟩ := h
+  refine ⟨h1, h2, fun hst => ?_, h4⟩
+  obtain ⟨e, hfin⟩ := h3 hst
+  refine ⟨e, hfin, ?_⟩
+  rw [e]
+  unfold header uniHeader
+  rw [List.append_assoc, rfcDecode_encode _ (by decide)]
+  simp only [STREAM_WEBTRANSPORT_UNI]
+  simp only [show Spec.ControlRules.hasId 84 = true by decide, if_true, rfcDecode_encode sid hsid]
+
+/-! non-vacuity: session 256; the transport takes the 4 header bytes as 1 + (Pending) + 2 + 1; then a
+    3-byte slice taken as 2 + (Pending) + 1, a DATA frame `00 01 09` taken as header, then payload (the `WriteBuf` yields them as two chunks), `poll_finish`;
+    and the same with too little room for the slice: the call is left waiting, the wire is a prefix -/
+example : openBidi 256 [1, 0, 2, 5] [.slice [1, 2, 3] [2, 0, 1], .frame [9] [10, 10], .finish] =
+    { wire := [0x40, 0x41, 0x41, 0x00, 1, 2, 3, 0x00, 0x01, 9], fin := true } := by decide +kernel
+example : openBidi 256 [1, 0, 2, 5] [.slice [1, 2, 3] [2, 0], .frame [9] [10, 10], .finish] =
+    { wire := [0x40, 0x41, 0x41, 0x00, 1, 2], stuck := true } := by decide +kernel
+example : openUni 65536 [3, 3] [.slice [7, 8] [1, 1], .reset 5] =
+    { wire := [0x40, 0x54, 0x80, 0x01, 0x00, 0x00, 7, 8], rst := some 5 } := by decide +kernel
+example : handed [.slice [1, 2, 3] [2, 0, 1], .frame [9] [10, 10], .finish] = [1, 2, 3, 0x00, 0x01, 9] := by decide
+example : H3.Frame.decode (openBidi 256 [1, 0, 2, 5] [.slice [1, 2, 3] [2, 0, 1], .frame [9] [10, 10], .finish]).wire =
+    .frame (.webTransport 256) (bidiHeader 256).length :=
+  ((C19_opened_bidi_wire 256 (by decide) [1, 0, 2, 5] [.slice [1, 2, 3] [2, 0, 1], .frame [9] [10, 10], .finish]
+    (by intro p sc hm; simp at hm; rw [hm.1]; decide)).2.2.1 (by decide +kernel)).2.2.1
+
+end wire
+
+/-! ## Written by one endpoint, read by the other -/
+
+section readback
+open H3.FS
+
+/-- **An opened bidirectional stream, read back.**  Composition of `C19_opened_bidi_wire` and
+    `C19_bidi_limited_reader_obtains_payload`: whatever the acceptance patterns on the sending side
+    (all calls completed), however the wire bytes are cut on the way (nothing behind FIN / RESET),
+    and whatever positive buffer sizes the receiving application reads with (more buffers than
+    bytes): the receiver's frame carries the sender's session id and the bytes it reads are exactly
+    the bytes handed to the sender's write calls, in order, `Ok(0)` only behind the last one. -/
+theorem C19_opened_bidi_read_back (sid : Nat) (hsid : sid < 2^62) (hs : List Nat) (ops : List WOp)
+    (hf : FramesOK ops) (hst : (openBidi sid hs ops).stuck = false)
+    (hlen : (handed ops).length < 2^64) (sc0 : List Ev) (hsc : ScriptOK sc0)
+    (hbytes : evBytes sc0 = (openBidi sid hs ops).wire) (hend : EndLast sc0)
+    {x : Nat} {s : FS.St} {script : List Ev}
+    (h : Reach frameDec sc0 [FS.Tok.frame (.webTransport x)] s script)
+    (sizes : List Nat) (hpos : ∀ n ∈ sizes, 0 < n) (hn : (handed ops).length < sizes.length) :
+    x = sid ∧ (readLim sizes (Rd.ofFS s) script).pieces.flatten = handed ops ∧
+    (readLim sizes (Rd.ofFS s) script).fin = endOf script := by
+  have hw := ((C19_opened_bidi_wire sid hsid hs ops hf).2.2.1 hst).1
+  rw [hw] at hbytes
+  refine ⟨(C19_payload_after_header sid hsid _ hlen sc0 hsc hbytes h).1, ?_⟩
+  exact (C19_bidi_limited_reader_obtains_payload sid hsid _ hlen sc0 hsc hbytes hend h sizes hpos).2.2.2 hn
+
+-- the seven bytes of `cut₂` are what `open_bi(256)` + a 3-byte slice put on the wire
+example : (openBidi 256 [4] [.slice [0xaa, 0xbb, 0xcc] [3]]).wire = evBytes cut₂ := by decide +kernel
+example : 256 = 256 ∧
+    (readLim [2, 2, 2, 2] (Rd.ofFS { buf := [[0xaa]], remaining := USIZE_MAX }) [.chunk [0xbb, 0xcc], .fin]).pieces.flatten =
+      handed [.slice [0xaa, 0xbb, 0xcc] [3]] ∧
+    (readLim [2, 2, 2, 2] (Rd.ofFS { buf := [[0xaa]], remaining := USIZE_MAX }) [.chunk [0xbb, 0xcc], .fin]).fin =
+      endOf [.chunk [0xbb, 0xcc], .fin] :=
+  C19_opened_bidi_read_back 256 (by decide) [4] [.slice [0xaa, 0xbb, 0xcc] [3]]
+    (by intro p sc hm; simp at hm) (by decide +kernel) (by decide) cut₂
+    (by intro b hb; simp [cut₂] at hb; rcases hb with rfl | rfl | rfl | rfl <;> simp) (by decide +kernel)
+    (by simp [cut₂, EndLast, evBytes]) reach_cut₂ [2, 2, 2, 2] (by decide) (by decide)
+
+end readback
 
 end H3.Props.C19
